@@ -3,7 +3,6 @@ package macro
 import (
 	"fmt"
 	"sort"
-	"strings"
 
 	"github.com/reeflective/readline/inputrc"
 	"github.com/reeflective/readline/internal/color"
@@ -134,12 +133,12 @@ func (e *Engine) RunMacro(key rune) {
 		return
 	}
 
-	macro := e.macros[key]
+	// Macros are stored in their inputrc notation, like the last one.
+	macro := inputrc.Unescape(e.macros[key])
 	if len(macro) == 0 {
 		return
 	}
 
-	macro = strings.ReplaceAll(macro, `\e`, "\x1b")
 	e.keys.Feed(false, []rune(macro)...)
 }
 
